@@ -1029,49 +1029,83 @@ def fails_with(props_wanted, kind='plain', need_model_diff=False):
 # ------------------------------------------------------------------------------------------------ free jobs (C05)
 # Programs without a pipeline: `submit <ex> <id>` = yaclib::Submit(<ex>, f_<id>) (exe/submit.hpp), then call / drain / flush.
 # Lean model: Model/FreeJob.lean (theorems free_job_* of Props/C05.lean), same driver, same output format.
+FREE_CMDS = ('submit', 'submitl', 'fn', 'mut', 'kill')
+HUSK = 999999   # what a moved-from functor logs (harness OwnFn::kHusk)
+
+
 def is_free(lines):
-    return any(l.startswith('submit ') for l in lines)
+    return any(l.split()[0] in FREE_CMDS for l in lines if l.strip())
 
 
 def gen_free(rng):
+    """executors x functor forms {rvalue, lvalue copied, the same lvalue submitted k times, lvalue changed between Submit and
+    execution, lvalue destroyed before execution} x body outcomes {returns, throws std::exception / int / a user struct}.
+    Every state (tag) a functor ever owns is a fresh number, so a job can be recognised by what it logs."""
     lines = []
     cfg = {}
     for k in range(1, rng.choice([1, 2, 2, 3]) + 1):
         kind = rng.choice(['queue', 'queue', 'manual', 'inline'])
-        lim = rng.choice([0, 1, 1, 2]) if rng.random() < 0.45 else None
+        lim = rng.choice([0, 1, 1, 2, 3]) if rng.random() < 0.4 else None
         cfg[k] = kind
         lines.append('cfg e%d %s%s' % (k, kind, '' if lim is None else ' limit=%d' % lim))
-    nid = 0
-    for _ in range(rng.randrange(1, 9)):
+    tag = [0]
+
+    def fresh():
+        tag[0] += 1
+        return tag[0]
+
+    def outcome():
+        return rng.choice(['', '', ' ret', ' std', ' int', ' usr'])
+
+    def ex():
+        return rng.choice(['inl', 'stp'] + ['e%d' % k for k in cfg] * 3)
+    named = set()
+    for _ in range(rng.randrange(1, 11)):
         x = rng.random()
-        if x < 0.62:
-            nid += 1
-            ex = rng.choice(['inl', 'stp', 'stp'] + ['e%d' % k for k in cfg] * 2)
-            lines.append('submit %s %d' % (ex, nid))
-        elif x < 0.85:
+        if x < 0.3:
+            lines.append('submit %s %d%s' % (ex(), fresh(), outcome()))
+        elif x < 0.42 or (x < 0.75 and not named):
+            j = rng.randrange(3)
+            named.add(j)
+            lines.append('fn f%d %d%s' % (j, fresh(), outcome()))
+        elif x < 0.62:
+            j = rng.choice(sorted(named))
+            for _ in range(rng.choice([1, 1, 2, 3])):     # the SAME lvalue submitted k times
+                lines.append('submitl %s f%d' % (ex(), j))
+        elif x < 0.7:
+            lines.append('mut f%d %d' % (rng.choice(sorted(named)), fresh()))
+        elif x < 0.75:
+            j = rng.choice(sorted(named))
+            named.discard(j)
+            lines.append('kill f%d' % j)
+        elif x < 0.92:
             lines.append('%s e%d' % (rng.choice(['call', 'drain']), rng.choice(list(cfg))))
         else:
             lines.append('expect')
-    if nid == 0:
+    if not is_free(lines):
         lines.append('submit %s 1' % rng.choice(['inl', 'stp', 'e1']))
     return lines + ['flush', 'expect']
 
 
 def free_monitor(lines, impl):
     """C05 for free jobs, on the implementation's output alone: every functor handed to Submit(e, f) is Called xor Dropped,
-    exactly once; Dropped iff its executor refused (stopped inline executor / user executor past its limit); Called inside the
-    executor; one UniqueJob per Submit, none left."""
+    exactly once, WITH THE STATE IT HAD WHEN IT WAS SUBMITTED (a copy: the caller's named functor is left alone and nothing
+    done to it later reaches the job); Dropped iff its executor refused (stopped inline executor / user executor past its
+    limit); Called inside the executor; a throwing body (std::exception, int, user struct) is a Call like any other; one
+    UniqueJob per Submit, none left; every functor object owns a state."""
     bad = []
     if any(o == 'bad' for o in impl):
         return [('gen', 'program rejected by the harness: ' + ' | '.join(lines))]
     if any(o in ('crash', 'missing') for o in impl):
         i = next(i for i, o in enumerate(impl) if o in ('crash', 'missing'))
-        return [('C05', 'the implementation crashed at line %d `%s`' % (i, lines[i]))]
+        return [('C05', 'the implementation crashed (std::terminate / fatal signal) at line %d `%s`' % (i, lines[i].split()[0] + ' …')
+                 + ': a job body that throws must be a Call like any other, the executor survives')]
     cfg = {}
     prev = {'inv': [], 'ran': [], 'jobs': [], 'sub': [], 'lc': 0, 'lf': 0}
-    want_called = {}   # id -> context it must run in ('-' / 'e<k>'), for accepted jobs
-    never = {}         # id -> why it must not be invoked
-    queued = {}        # jid -> id, accepted by a queue executor, not yet seen finished
+    named = {}         # j -> tag the client's functor f<j> owns now
+    accepted = []      # (tag, context it must run in) for every accepted Submit
+    refused = []       # tags of refused Submits
+    queued = {}        # jid -> tag, accepted by a queue executor, not yet seen finished
     nsub = {}
     last = None
     for i, (l, o) in enumerate(zip(lines, impl)):
@@ -1088,21 +1122,30 @@ def free_monitor(lines, impl):
         new_inv = s['inv'][len(prev['inv']):]
         new_jobs = s['jobs'][len(prev['jobs']):]
         new_sub = s['sub'][len(prev['sub']):]
-        if t[0] == 'submit':
-            ex, fid = t[1], int(t[2])
+        if t[0] == 'fn':
+            named[int(t[1][1:])] = int(t[2])
+        elif t[0] == 'mut':
+            named[int(t[1][1:])] = int(t[2])
+        elif t[0] == 'kill':
+            named.pop(int(t[1][1:]), None)
+        if t[0] in ('submit', 'submitl'):
+            ex = t[1]
+            fid = int(t[2]) if t[0] == 'submit' else named.get(int(t[2][1:]))
+            what = 'f%s' % fid if t[0] == 'submit' else 'a copy of %s (state %s)' % (t[2], fid)
             if s['al'] > 1:
                 bad.append(('C05', 'Submit(%s, f) allocated %d blocks (line %d)' % (ex, s['al'], i)))
             if ex == 'inl':
-                want_called[fid] = '-'
+                accepted.append((fid, '-'))
                 if new_inv != [fid] or new_sub or new_jobs:
-                    bad.append(('C05', 'Submit(MakeInline(), f%d): the job was not called in place exactly once (line %d: %s)' % (fid, i, o)))
+                    bad.append(('C05', 'Submit(MakeInline(), %s): the job was not called in place exactly once with that state '
+                                       '(line %d: ran %s)' % (what, i, new_inv)))
             elif ex == 'stp':
-                never[fid] = 'the stopped inline executor (Alive() == false)'
+                refused.append(fid)
                 if new_inv or new_sub or new_jobs:
-                    bad.append(('C05', 'job f%d was Called by the stopped inline executor MakeInline(StopTag{}) (Alive() == false), '
-                                       'expected Drop (line %d `%s`)' % (fid, i, l)))
+                    bad.append(('C05', 'job %s was Called by the stopped inline executor MakeInline(StopTag{}) (Alive() == false), '
+                                       'expected Drop (line %d `%s`)' % (what, i, l)))
                 elif (s['lc'], s['lf']) != (prev['lc'], prev['lf']):
-                    bad.append(('C05', 'job f%d handed to the stopped inline executor was neither called nor destroyed (line %d)' % (fid, i)))
+                    bad.append(('C05', 'job %s handed to the stopped inline executor was neither called nor destroyed (line %d)' % (what, i)))
             else:
                 k = int(ex[1:])
                 kind, lim = cfg.get(k, ('queue', None))
@@ -1110,46 +1153,77 @@ def free_monitor(lines, impl):
                 nsub[k] = nsub.get(k, 0) + 1
                 jid = len(prev['sub'])
                 if new_sub != [k]:
-                    bad.append(('C05', 'Submit(e%d, f%d) reached the executor %d times (line %d)' % (k, fid, len(new_sub), i)))
+                    bad.append(('C05', 'Submit(e%d, %s) reached the executor %d times (line %d)' % (k, what, len(new_sub), i)))
                 elif rejected:
-                    never[fid] = 'e%d, which refused it' % k
+                    refused.append(fid)
                     if new_jobs != [(jid, 'd')] or new_inv:
-                        bad.append(('C05', 'job f%d refused by e%d was not simply Dropped (line %d: %s)' % (fid, k, i, o)))
+                        bad.append(('C05', 'job %s refused by e%d was not simply Dropped (line %d: %s)' % (what, k, i, o)))
                 elif kind == 'inline':
-                    want_called[fid] = 'e%d' % k
+                    accepted.append((fid, 'e%d' % k))
                     if new_jobs != [(jid, 'c')] or new_inv != [fid]:
-                        bad.append(('C05', 'job f%d accepted by the in-place executor e%d was not called exactly once (line %d: %s)' % (fid, k, i, o)))
+                        bad.append(('C05', 'job %s accepted by the in-place executor e%d was not called exactly once with that state '
+                                           '(line %d: ran %s)' % (what, k, i, new_inv)))
                 else:
-                    want_called[fid] = 'e%d' % k
+                    accepted.append((fid, 'e%d' % k))
                     queued[jid] = fid
                     if new_jobs or new_inv:
-                        bad.append(('C05', 'job f%d queued on e%d ran before the executor was asked to (line %d: %s)' % (fid, k, i, o)))
+                        bad.append(('C05', 'job %s queued on e%d ran before the executor was asked to (line %d: %s)' % (what, k, i, o)))
         else:
             if s['al'] != 0:
                 bad.append(('C05', '%d allocation(s) on `%s` (line %d)' % (s['al'], l, i)))
+            ran_now = []
             for (jid, how) in new_jobs:
                 if how != 'c' or jid not in queued:
                     bad.append(('C05', 'job %d finished as `%s` on line %d `%s` although %s' % (
                         jid, how, i, l, 'it was accepted' if jid in queued else 'no such job is queued')))
+                else:
+                    ran_now.append(queued[jid])
                 queued.pop(jid, None)
+            if t[0] in ('call', 'drain', 'flush') and new_inv != ran_now and len(new_inv) == len(ran_now):
+                # the jobs that finished on this line logged other states than the ones they were submitted with
+                x = next((a, b) for a, b in zip(new_inv, ran_now) if a != b)
+                bad.append(('C05', 'a queued job ran with state %s although its functor had state %d when it was submitted: the job '
+                                   'must own a COPY of its functor, taken at the Submit (line %d `%s`)' % (
+                                       'of a moved-from functor' if x[0] == HUSK else x[0], x[1], i, l.split()[0] + ' …')))
+        # the client's own functors are left alone by Submit(e, lvalue)
+        fns = {}
+        for item in (s.get('fns') or '').split(','):
+            if item:
+                n, v = item.split(':')
+                fns[int(n[1:])] = v
+        want = {j: str(v) for j, v in named.items()}
+        if 'fns' in s and fns != want:
+            j = next(j for j in sorted(set(fns) | set(want)) if fns.get(j) != want.get(j))
+            bad.append(('C05', 'after line %d `%s` the caller\'s functor f%d owns %s, it must own %s: Submit(e, lvalue) copies, '
+                               'it does not move from the caller\'s object' % (i, l.split()[0] + ' …', j, fns.get(j), want.get(j))))
+        if 'ls' in s and int(s['ls']) != s['lf']:
+            bad.append(('C05', '%d functor object(s) alive but %s state(s): a functor lost the state it owns (line %d `%s`)' % (
+                s['lf'], s['ls'], i, l.split()[0] + ' …')))
         prev = s
     if last is None:
         return bad
-    for fid, why in never.items():
-        if fid in last['inv']:
-            bad.append(('C05', 'job f%d was Called although it was handed to %s' % (fid, why)))
-    for fid in set(last['inv']):
-        if last['inv'].count(fid) > sum(1 for l in lines if l.split()[0] == 'submit' and int(l.split()[2]) == fid):
-            bad.append(('C05', 'job f%d was Called %d times' % (fid, last['inv'].count(fid))))
+    if HUSK in last['inv']:
+        bad.append(('C05', 'a job ran a moved-from functor (it logged no state)'))
+    for fid in sorted(set(last['inv'])):
+        n_acc = sum(1 for a, _ in accepted if a == fid)
+        if fid != HUSK and last['inv'].count(fid) > n_acc:
+            bad.append(('C05', 'state %d was run %d time(s) but only %d accepted job(s) were submitted with it%s' % (
+                fid, last['inv'].count(fid), n_acc, ' (it was refused: must be Dropped)' if fid in refused else '')))
+    want_ctx = {}
+    for fid, ctx in accepted:
+        want_ctx.setdefault(fid, set()).add(ctx)
     for fid, ctx in last['ran']:
-        if fid in want_called and want_called[fid] != ctx:
-            bad.append(('C05', 'job f%d handed to %s ran in context %s' % (fid, want_called[fid], ctx)))
+        if fid in want_ctx and ctx not in want_ctx[fid]:
+            bad.append(('C05', 'job f%d handed to %s ran in context %s' % (fid, '/'.join(sorted(want_ctx[fid])), ctx)))
     if 'flush' in lines:
-        for fid in want_called:
-            if fid not in last['inv']:
-                bad.append(('C05', 'job f%d was accepted by its executor but never Called' % fid))
-        if last['lc'] != 0 or last['lf'] != 0:
-            bad.append(('C05', '%d UniqueJob(s) / %d functor(s) still alive after every job was finished' % (last['lc'], last['lf'])))
+        for fid in sorted({a for a, _ in accepted}):
+            n_acc = sum(1 for a, _ in accepted if a == fid)
+            if last['inv'].count(fid) < n_acc:
+                bad.append(('C05', '%d job(s) submitted with state %d were accepted by their executor but only %d Called' % (
+                    n_acc, fid, last['inv'].count(fid))))
+        if last['lc'] != 0 or last['lf'] != len(named):
+            bad.append(('C05', '%d UniqueJob(s) / %d functor(s) still alive after every job was finished (the client holds %d)' % (
+                last['lc'], last['lf'], len(named))))
     return bad
 
 
@@ -1198,12 +1272,15 @@ def free_check(res, tier):
                       'still Called xor Dropped as the property says' % len(corr), no_input=True, name='C05_%s_free_correspondence.txt' % tier)
     res.coverage['free_jobs'] = {
         'programs': len(progs), 'corpus': ncorpus, 'distinct': len({tuple(p) for p in progs}),
-        'submits': sum(1 for p in progs for l in p if l.startswith('submit ')),
+        'submits': sum(1 for p in progs for l in p if l.startswith('submit')),
+        'lvalue_submits': sum(1 for p in progs for l in p if l.startswith('submitl ')),
+        'throwing_bodies': sum(1 for p in progs for l in p if l.split()[-1] in ('std', 'int', 'usr')),
         'on_stopped_inline': sum(1 for p in progs for l in p if l.startswith('submit stp')),
         'refused_by_user_executor': sum(1 for p, o in zip(progs, rs) for x in (parse_state(o['impl'][-1]) or {'jobs': []})['jobs'] if x[1] == 'd'),
         'streams_compared': ['yaclib (harness/pipe.cpp)'] + (['Lean fmech'] if drv_ok else []),
-        'rule': 'programs without a pipeline: 1-3 user executors (queue / ManualExecutor / in-place, optional limit), up to 8 '
-                'lines of submit <inl|stp|e_k> / call / drain / expect, then flush'}
+        'rule': 'programs without a pipeline: 1-3 user executors (queue / ManualExecutor / in-place, optional limit), up to 10 '
+                'steps of submit <inl|stp|e_k> <id> [ret|std|int|usr] (rvalue) / fn / submitl (lvalue, the same one up to 3 times) / '
+                'mut / kill / call / drain / expect, then flush'}
     return fails, corr
 
 
